@@ -2249,7 +2249,8 @@ class _Simu(_IObserver, _params.Updatable, ABC):
             self.Bc_Lagrange,  # type: ignore [arg-type]
         )
         if nBc > 0:
-            nBc += len(self.Bc_dofs_Dirichlet(problemType))
+            # one multiplier per constrained dof (a dof may be entered several times)
+            nBc += np.unique(self.Bc_dofs_Dirichlet(problemType)).size
         return nBc
 
     @property
